@@ -27,6 +27,13 @@ struct M<'a, K, const D: usize> {
     seed_pts: Vec<[f64; D]>,
     policy_bound: u8,
     policy_until_vertices: usize,
+    /// "latent violation, then switch the checks on" family: histories start under repair policy Never; once a
+    /// state is not Delaunay (and has at most `switch_max_vertices` vertices) the repair policy is set to
+    /// EveryInsertion and the check policy to EveryN(1), followed by up to two further insertions
+    switch_mode: bool,
+    switch_max_vertices: usize,
+    latent: &'a std::sync::atomic::AtomicU64,
+    checked_refusals: &'a std::sync::atomic::AtomicU64,
     _k: std::marker::PhantomData<K>,
 }
 
@@ -54,6 +61,35 @@ where
     fn ops(&self, s: &St<K, D>, hist: &[Op]) -> Vec<Op> {
         let mut v = Vec::new();
         let depth = hist.len() as u32;
+        if self.switch_mode {
+            // phases (kept in policy_changes): 0 = under repair Never; 1 = repair switched on; 2 = check switched on;
+            // 3, 4 = one / two insertions made with both on
+            match s.policy_changes {
+                0 => {
+                    if s.dt.number_of_vertices() < self.switch_max_vertices {
+                        for p in 0..self.alphabet.len() {
+                            v.push(Op::Insert { p, uid: depth * 64 + p as u32, stats: false });
+                        }
+                    }
+                    if s.dt.number_of_cells() > 0 {
+                        let snap = vcore::dtx::snap_of(&s.dt);
+                        if !refval::delaunay_violations(&snap, true).is_empty() {
+                            self.latent.fetch_add(1, std::sync::atomic::Ordering::Relaxed);
+                            v.push(Op::SetRP(0));
+                        }
+                    }
+                }
+                1 => v.push(Op::SetCP(1)),
+                2 | 3 => {
+                    for p in 0..self.alphabet.len() {
+                        v.push(Op::Insert { p, uid: depth * 64 + p as u32, stats: false });
+                        v.push(Op::Insert { p, uid: depth * 64 + p as u32, stats: true });
+                    }
+                }
+                _ => {}
+            }
+            return v;
+        }
         for p in 0..self.alphabet.len() {
             v.push(Op::Insert { p, uid: depth * 64 + p as u32, stats: false });
         }
@@ -129,7 +165,9 @@ where
                     if dt.delaunay_check_policy() == DelaunayCheckPolicy::EveryN(NonZeroUsize::new(1).unwrap()) && snap.n_cells() > 0 {
                         if let Some(&(ci, vi)) = refval::delaunay_violations(&snap, true).first() {
                             self.rep.violation(Finding {
-                                signature: json!({"check": "delaunay_after_checked_insert", "D": D, "kernel": self.kname, "family": self.label, "mechanism": refval::violation_mechanism(&snap)}),
+                                // `library_verifier_accepts` separates "the crate's own Level-4 verifier is blind to this violation" (the defect recorded
+                                // for C04) from "the verifier would have rejected it, but the insertion did not ask / did not listen"
+                                signature: json!({"check": "delaunay_after_checked_insert", "D": D, "kernel": self.kname, "family": self.label, "mechanism": refval::violation_mechanism(&snap), "library_verifier_accepts": dt.is_delaunay_via_flips().is_ok()}),
                                 description: format!("check policy EveryN(1): Inserted, but vertex {:?} is strictly inside the circumsphere of cell {:?}", snap.verts[vi].c, snap.cell_points(ci)),
                                 replay: self.replay_json("empty", hist, op),
                             });
@@ -142,6 +180,14 @@ where
         if hist.len() % 3 == 1 {
             self.rep.sample(json!({"D": D, "kernel": self.kname, "ops": hist.iter().chain(std::iter::once(op)).map(|o| format!("{o:?}")).collect::<Vec<_>>(), "last": out.class(), "cells": snap.n_cells()}), 8);
         }
+        if self.switch_mode && s.policy_changes >= 2 {
+            if let Outcome::Err { class, .. } = &out {
+                if class.contains("DelaunayValidation") {
+                    self.checked_refusals.fetch_add(1, std::sync::atomic::Ordering::Relaxed);
+                }
+            }
+            return Some(St { dt, policy_changes: s.policy_changes + 1 });
+        }
         Some(St { dt, policy_changes: s.policy_changes + u8::from(is_policy) })
     }
 }
@@ -152,7 +198,7 @@ where
     K: Kernel<D, Scalar = f64> + Sync + Send,
     DtI<K, D>: Send + Sync,
 {
-    let m = M::<K, D> { rep, seed_pts: seed_pts.to_vec(), kname, label: label.to_string(), alphabet, policy_bound, policy_until_vertices: D + 2, _k: std::marker::PhantomData };
+    let m = M::<K, D> { rep, seed_pts: seed_pts.to_vec(), kname, label: label.to_string(), alphabet, policy_bound, policy_until_vertices: D + 2, switch_mode: false, switch_max_vertices: 0, latent: &LATENT, checked_refusals: &REFUSALS, _k: std::marker::PhantomData };
     // seeds: empty triangulation (or a batch-constructed one) under the default policies and every single-policy deviation
     let mut seeds: Vec<(St<K, D>, Vec<Op>)> = Vec::new();
     let base: DtI<K, D> = if seed_pts.is_empty() {
@@ -176,6 +222,27 @@ where
     let nseeds = seeds.len();
     let st = bfs(&m, seeds, depth, &Caps { max_states_per_level: 3_000_000, wall_s: 0.0 });
     bounds.push(json!({"D": D, "kernel": kname, "family": label, "alphabet": m.alphabet.len(), "seeds": nseeds, "depth": st.depth_completed, "states": st.states, "transitions": st.transitions, "levels": st.level_sizes, "caps_hit": st.caps_hit, "mid_history_policy_changes": policy_bound}));
+    total.states += st.states;
+    total.transitions += st.transitions;
+    total.caps_hit.extend(st.caps_hit);
+}
+
+static LATENT: std::sync::atomic::AtomicU64 = std::sync::atomic::AtomicU64::new(0);
+static REFUSALS: std::sync::atomic::AtomicU64 = std::sync::atomic::AtomicU64::new(0);
+
+/// "latent violation, then switch the checks on": see `M::switch_mode`.
+fn run_switch<K, const D: usize>(rep: &Report, kname: &'static str, label: &str, alphabet: Vec<[f64; D]>, max_vertices: usize, total: &mut Stats, bounds: &mut Vec<Value>)
+where
+    K: Kernel<D, Scalar = f64> + Sync + Send,
+    DtI<K, D>: Send + Sync,
+{
+    let m = M::<K, D> { rep, seed_pts: vec![], kname, label: label.to_string(), alphabet, policy_bound: 0, policy_until_vertices: 0, switch_mode: true, switch_max_vertices: max_vertices, latent: &LATENT, checked_refusals: &REFUSALS, _k: std::marker::PhantomData };
+    let mut dt: DtI<K, D> = DelaunayTriangulation::with_empty_kernel(K::default());
+    model::apply(&mut dt, &Op::SetRP(1), &m.alphabet);
+    let (l0, r0) = (LATENT.load(std::sync::atomic::Ordering::Relaxed), REFUSALS.load(std::sync::atomic::Ordering::Relaxed));
+    let st = bfs(&m, vec![(St { dt, policy_changes: 0 }, vec![Op::SetRP(1)])], max_vertices + 4, &Caps { max_states_per_level: 3_000_000, wall_s: 0.0 });
+    bounds.push(json!({"D": D, "kernel": kname, "family": label, "alphabet": m.alphabet.len(), "depth": st.depth_completed, "states": st.states, "transitions": st.transitions, "levels": st.level_sizes, "caps_hit": st.caps_hit,
+        "latent_non_delaunay_states_switched": LATENT.load(std::sync::atomic::Ordering::Relaxed) - l0, "checked_insertions_refused_as_non_delaunay": REFUSALS.load(std::sync::atomic::Ordering::Relaxed) - r0}));
     total.states += st.states;
     total.transitions += st.transitions;
     total.caps_hit.extend(st.caps_hit);
@@ -205,11 +272,19 @@ fn main() {
     both::<2>(&rep, "G2(3) from empty, policy deviations", g3.clone(), &[], 4 + x, 1, true, &mut total, &mut bounds);
     let g4 = alpha::grid::<2>(4);
     both::<2>(&rep, "G2(4) from constructed seed", g4.clone(), &[[0.0, 0.0], [3.0, 0.0], [0.0, 3.0], [3.0, 3.0], [1.0, 2.0]], 3, 0, true, &mut total, &mut bounds);
+    // latent violation under repair policy Never, then repair + per-insertion check switched on, then two insertions
+    // (alphabets with flat simplices and outliers, so that hull extension without repair leaves non-Delaunay facets)
+    let wide2: Vec<[f64; 2]> = vec![[0.0, 0.0], [2.0, 0.0], [1.0, 0.25], [1.0, -0.5], [6.0, 0.0], [6.0, 3.0], [5.5, 1.0], [0.0, 1.0], [3.0, 3.0]];
+    run_switch::<FastKernel<f64>, 2>(&rep, "fast", "flat triangle + outliers, switch-on after latent violation", wide2.clone(), 5 + x, &mut total, &mut bounds);
+    run_switch::<RobustKernel<f64>, 2>(&rep, "robust", "flat triangle + outliers, switch-on after latent violation", wide2, 5 + x, &mut total, &mut bounds);
     // D=3
     let mut c3 = alpha::grid::<3>(2);
     c3.push([0.5; 3]);
     both::<3>(&rep, "cube3+centre from empty, default policies", c3.clone(), &[], 6 + x, 0, false, &mut total, &mut bounds);
     both::<3>(&rep, "cube3+centre from empty, policy deviations", c3.clone(), &[], 4 + x, 1, true, &mut total, &mut bounds);
+    let wide3: Vec<[f64; 3]> = vec![[0.0, 0.0, 0.0], [2.0, 0.0, 0.0], [0.0, 2.0, 0.0], [1.0, 1.0, 0.25], [1.0, 1.0, -0.5], [6.0, 0.0, 0.0], [6.0, 3.0, 2.0]];
+    run_switch::<FastKernel<f64>, 3>(&rep, "fast", "flat tetrahedron + outliers, switch-on after latent violation", wide3.clone(), 6 + x, &mut total, &mut bounds);
+    run_switch::<RobustKernel<f64>, 3>(&rep, "robust", "flat tetrahedron + outliers, switch-on after latent violation", wide3, 6 + x, &mut total, &mut bounds);
     both::<3>(&rep, "cube3+centre from constructed seed", c3.clone(), &[[0.0, 0.0, 0.0], [1.0, 0.0, 0.0], [0.0, 1.0, 0.0], [0.0, 0.0, 1.0], [1.0, 1.0, 1.0]], 3, 0, true, &mut total, &mut bounds);
     // D=4,5: alphabets of D+3 (quick) / D+4 points
     let a4: Vec<[f64; 4]> = alpha::cube_alphabet::<4>().into_iter().take(7 + x).collect();
